@@ -44,8 +44,8 @@ ASSUMPTIONS.update({
     "eval_continue": "eval_continue: keeps the frame's base block count (PROVED in unit blocks)",
     "eval_match_cases_on": "eval_match_cases_on (eval.rs: pattern matching on the scrutinee) is NOT verified here: assumed not to touch the value stack, to push exactly one bindings block (through eval_block) and no owner entry when it succeeds, and to change nothing when it fails",
     "eval_struct_value": "eval_struct_value (eval.rs) is NOT verified here: assumed to leave the bindings blocks, the pending expressions and the other frames alone and to hand back what it popped when it fails (the restore contract)",
-    "eval_call": "eval_call (eval.rs) is NOT verified here: assumed to leave the bindings blocks, the pending expressions and the other frames alone and to hand back what it popped when it fails (the restore contract)",
-    "eval_method_call": "eval_method_call (eval.rs) is NOT verified here: assumed to leave the bindings blocks, the pending expressions and the other frames alone and to hand back what it popped when it fails (the restore contract)",
+    "eval_call": "eval_call: the same clauses are PROVED for the whole function in unit calls",
+    "eval_method_call": "eval_method_call: the same clauses are PROVED for the whole function in unit calls",
     "push_back_mut": "rpds::Vector::push_back_mut", "insert_mut": "rpds::HashTrieMap::insert_mut", "no_value": "Type::no_value()", "from_value": "Type::from_value inspects the value only",
     "format_type_error_with_suggestion": "returns some ErrorMessage and does not panic", "checked_pow": "i64::checked_pow (std; functional contract in unit arith)", "wrapping_rem_euclid": "i64::wrapping_rem_euclid panics iff the divisor is 0 (std)",
     "vfl_is_zero": "f64 == 0.0", "vfl_add": "f64 +", "vfl_sub": "f64 -", "vfl_mul": "f64 *", "vfl_div": "f64 /", "vS_new_with_room": "String::with_capacity(a.len() + b.len()): `usize` addition of two lengths of live strings cannot overflow", "vS_push": "String::push_str",
@@ -71,7 +71,7 @@ UNVERIFIED = {
     "C34": ["only the run-time check of a qualified access `ns::item` (eval_namespace_access) is under contract: it yields the namespace's value and does so only for items marked public",
             "unqualified imports: insert_imported_namespace copies into the importing namespace only names the imported one marks public (under contract); how exported_syms is populated when a file is loaded (load_toplevel_items), the check-time rule (infer_namespace_access in the type checker) and cyclic import loading are NOT under contract"],
     "C06": ["the FunLiteral arm of eval_expr (builds a closure value; it neither pushes nor pops bindings blocks in the source) is the only arm not under contract",
-            "the step functions behind the arms that are stubs here (eval_let, eval_assign_update, eval_int_binop, eval_float_binop, eval_string_concat, eval_namespace_access, eval_struct_value, eval_call, eval_method_call): assumed not to touch the bindings-block count or the pending expressions",
+            "the step functions behind the arms that are stubs here (eval_let, eval_assign_update, eval_int_binop, eval_float_binop, eval_struct_value, eval_match_cases_on): assumed not to touch the bindings-block count or the pending expressions",
             "eval_match_cases and the operand-count / loop-index preconditions of the arms (evaluator invariants established by earlier steps) are assumed; eval_break / eval_continue / eval_block are proved in unit blocks",
             "function frames: a frame is created with one bindings block (Bindings::new_with) and dropped whole when the call returns"],
     "C07": ["that the expression state handed back to restore_stack_frame re-runs the same step (eval_expr mutates `expr_state` only in arms that cannot fail; not stated as a contract)",
